@@ -50,6 +50,15 @@ import (
 // peer any refresh (oracle 3). The seq part also removes entities that are not in the device's entity list while
 // their heartbeat runs (histories "restart-after-remove" and "never-added"), judged by oracle (5).
 //
+// Steady slow connection (seq, generated histories with a timeout of 100-300 ms, thorough also 1 and 1.25 s): after the
+// call-free run of 8 refreshes with a fast subscriber a second call-free run of 8 refreshes follows during which the
+// observed subscriber's connection takes a fixed 40, 50 or 60 % of the announced timeout for EVERY heartbeat
+// notification (c16Env.slowRun, c16Tap.share). The ticker of a stream keeps its schedule, so the gaps stay around the
+// period; the effective-gap oracle judges such a run against announced timeout + half of the time the connection took
+// (every gap above it = the period depends on the subscribers: period/effective-gaps-exceed-announced-timeout), with
+// a tighter starvation guard (harness timer late by more than a quarter of the timeout in more than 10% of its
+// wake-ups => inconclusive).
+//
 // Second entity: in two of three cases of seq and conc a second entity ([2], or nested [1,1]) has its own DeviceDiagnosis
 // feature, heartbeat manager, timeout and subscription; nothing but its AddFunctionType is ever called for it. After
 // every checkpoint of entity [1] it must still report running and two more of its refreshes must arrive (oracle 7:
@@ -83,6 +92,7 @@ func init() {
 			"one row 'never-added' (NewEntityLocal, add - which starts the heartbeat -, RemoveEntity without any AddEntity; observed through DataCopy). In every second case of seq, conc and slowtap a peer without write handler (every send to it fails) " +
 			"subscribed to the DeviceDiagnosis feature before the observed peer; " +
 			"in two of three cases of seq and conc a second entity ([2] or nested [1,1]) runs its own heartbeat (timeout 0.1, 0.2 or 2.1 s), started before or after that of entity [1] and never stopped: after every checkpoint of entity [1] it must still be running and refreshing (for [1,1] only until RemoveEntity([1])); " +
+			"in every generated history of seq with a timeout of 100-300 ms (thorough: also 1 s and 1.25 s) the call-free run of 8 refreshes is followed by a second one during which the observed subscriber's connection takes 40, 50 or 60 % of the announced timeout for every heartbeat notification (less than the period), judged by the effective-gap oracle with the bound announced timeout + half of that time; " +
 			"in every second generated history of seq a second healthy peer subscribes while the heartbeat runs and must receive every refresh built after its subscription returned; " +
 			"conc: 4-8 goroutines with 3-6 Start/Stop/IsRunning calls each - in case index%4 = 1|3 the AddFunctionType that creates and starts the heartbeat is one of these calls (the others begin with StartHeartbeat), in 2|3 one or two RemoveEntity calls are among them -, cyclic rendezvous of two or jitter at Heartbeat.stop.afterCheck and Heartbeat.start.afterStop, then a final sequential call that makes the expectation exact, " +
 			"then (periods <= 300 ms) 2-8 trials of Stop, Start and restarting Start, and finally (all periods) RemoveEntity, each called while 4-8 other goroutines query IsHeartbeatRunning in a tight loop (bounded; they have ended before the checkpoint judges: after Stop/RemoveEntity no live stream and no refresh beyond the one in flight, after Start exactly one stream; a query that returned before the call began must report the state the preceding checkpoint established, one that began after the call returned the state the call produces - ordered through an atomic phase flag -, queries overlapping the call are only counted); " +
@@ -90,6 +100,7 @@ func init() {
 			"A case is non-trivial if at least one running checkpoint (refreshes judged) and one stopped checkpoint (silence judged) were decided without a watchdog expiry. distinct = (timeout, operation sequence, hook policy).",
 		Assumptions: []string{
 			"'periodically': the deciding period check is the hook record period <= announced timeout (announced = the PT..S string of the notify / the function data, parsed by the check itself). A running checkpoint that shows NO refresh at all within its watchdog ((k+2) x 4 periods + 15 s) is a violation on logged order if every call has returned, the call that decided the state started the heartbeat, IsHeartbeatRunning() = true, and the harness's own sampler timer woke up regularly during the wait (at least half of the nominal wake-ups, at most 10% more than 50 ms late: the process was not starved): <op>/running-without-a-stream if the hook gauge shows that every stream goroutine that entered has left, else <op>/no-refresh-while-running; fewer refreshes than waited for, or a late harness timer, stay inconclusive",
+			"'with a period not exceeding the announced timeout' holds whatever the subscribers' connections cost, as long as a notification takes less than the period: in a call-free run of >= 7 refreshes of one stream during which the subscriber's connection took h (40-60 % of the announced timeout, timeouts <= 2 s) for every notification, a stream that keeps its schedule shows gaps around the period (a late refresh is followed by a short gap), one whose period begins anew after the notification shows period + h in EVERY gap; verdict only if every gap exceeds announced + h/2 and the harness's own sampler timer (period/5) woke up at least half of the nominal times in that window with at most 10% of the wake-ups more than min(50 ms, timeout/4) late - otherwise inconclusive. Wall-clock gaps are used here because the clause is about time; the harness timer in the same scheduler is the reference",
 			"a second entity for which only AddFunctionType(heartbeat) was ever called is running by the statement's own terms; that calls on entity [1] leave it running and refreshing is 'an entity's heartbeat ... while running ... refreshed periodically' applied to it. For a nested entity [1,1] nothing is judged after RemoveEntity([1]): whether removing an entity ends the heartbeats of its sub-entities is not decided by the statement. Gaps in the second entity's counter sequence are not judged (only 'strictly increasing')",
 			"'notified to the subscribers of the device-diagnosis feature' names the feature: addressSource must be the DeviceDiagnosis feature of the entity whose stream wrote the notify, addressDestination the client feature subscribed to exactly that feature; a peer that subscribes while the heartbeat runs is a subscriber from the moment its subscription request returned: refreshes built after that (same-goroutine successor of a notify whose write to the first subscriber completed later, or a stream goroutine that entered later) must reach it, up to the first RemoveEntity call",
 			"'data is refreshed ... every refresh is notified': FeatureLocal.SetData stores before it notifies, so while a notify is inside the writer DataCopy of its source feature shows a counter >= the notified one (read by the writer goroutine itself: causal); 'the data then stays unchanged' is judged on the JSON rendering of the whole heartbeat data (same counter => same content)",
@@ -126,6 +137,7 @@ type c16Notify struct {
 	At        time.Time
 	DoneAt    time.Time // harness clock when the write was complete (the writer is about to return to the stream)
 	Held      time.Duration
+	Share     int64 // > 0: held for this percentage of the announced timeout (steady slow connection)
 	Goid      int64
 	Counter   uint64
 	HasCtr    bool
@@ -148,6 +160,11 @@ type c16Tap struct {
 	// slow writer: the next heartbeat notify is held for `hold` (schedule widening, like a congested connection)
 	hold    int64 // nanoseconds, consumed by the next heartbeat notify
 	entered chan struct{}
+	// steady slow connection: while share > 0 every heartbeat notify whose addressSource is shareSrc is held for share
+	// percent of the timeout the notify itself announces (a subscriber whose connection takes a fixed part of the period
+	// per message, always less than the period)
+	share    int64 // percent, atomic
+	shareSrc string
 	// data reads the heartbeat counter in the function data of the feature with address src (set before the
 	// connection exists, never changed afterwards)
 	data func(src string) (ctr uint64, has, known bool)
@@ -244,6 +261,10 @@ func (t *c16Tap) WriteShipMessageWithPayload(m []byte) {
 		}
 		time.Sleep(time.Duration(h))
 		n.Held = time.Duration(h)
+	} else if sh := atomic.LoadInt64(&t.share); sh > 0 && n.HasTO && n.Src == t.shareSrc && n.Timeout <= 2*time.Second {
+		h := n.Timeout * time.Duration(sh) / 100
+		time.Sleep(h)
+		n.Held, n.Share = h, sh
 	}
 	n.Done, n.DoneAt = rig.Seq(), time.Now()
 	t.mu.Lock()
@@ -335,7 +356,8 @@ type c16Env struct {
 	samples    []c16Sample
 	lags       []c16Lag
 	sampleIv   time.Duration
-	removeCall int64 // Seq before the first RemoveEntity call (0: none)
+	removeCall int64   // Seq before the first RemoveEntity call (0: none)
+	marks      []int64 // Seq at which the subscriber's connection changed its speed (slowRun): runs of notifies are cut there like at a call
 	stopSample chan struct{}
 	sampleWG   sync.WaitGroup
 
@@ -387,6 +409,7 @@ func newC16EnvOpt(c *rig.Ctx, timeout time.Duration, opt c16Opt) *c16Env {
 	e.dd = e.ent.GetOrAddFeature(model.FeatureTypeTypeDeviceDiagnosis, model.RoleTypeServer)
 	e.hm = e.ent.HeartbeatManager()
 	e.srcA, e.dstA = rkKey(e.dd.Address()), rkKey(rig.FA("dev0", []uint{1}, 1))
+	e.tap.shareSrc = e.srcA // before the connection exists; never changed afterwards
 	if len(opt.twin) > 0 && withPeer {
 		tw := &c16Twin{addr: opt.twin, nested: len(opt.twin) > 1, timeout: opt.twinTimeout, period: opt.twinTimeout, streams: map[int64]*c16Stream{}}
 		if tw.timeout > 2*time.Second {
@@ -656,6 +679,30 @@ func (e *c16Env) lateSubscribe() {
 	e.mu.Unlock()
 	e.c.Count("subscriptions_made_while_the_heartbeat_runs", 1)
 	e.note("a second peer subscribed to the DeviceDiagnosis feature while the heartbeat runs (seq %d-%d)", call, ret)
+}
+
+// slowRun: a call-free run of k refreshes during which the observed subscriber's connection takes a FIXED share of the
+// announced timeout for every heartbeat notification of entity [1] (always less than the period: a stream that keeps
+// its schedule is never late because of it). "refreshed periodically, with a period not exceeding the announced
+// timeout" does not depend on how long the subscribers take: the gaps between the refreshes of this run are judged in
+// finish() against announced timeout + half of the time the connection took (a period that restarts when the
+// notification is through would show announced timeout + the whole of it in EVERY gap).
+func (e *c16Env) slowRun(op string, share int64, k int) {
+	atomic.StoreInt64(&e.tap.share, share)
+	s := rig.Seq()
+	e.mu.Lock()
+	e.marks = append(e.marks, s)
+	e.mu.Unlock()
+	e.note("from seq %d on the subscriber's connection takes %d%% of the announced timeout per heartbeat notification", s, share)
+	v0, v0ok := e.counter()
+	e.checkpointRunning(op, s, v0, v0ok, true, k)
+	s = rig.Seq()
+	e.mu.Lock()
+	e.marks = append(e.marks, s)
+	e.mu.Unlock()
+	atomic.StoreInt64(&e.tap.share, 0)
+	e.note("from seq %d on the subscriber's connection is fast again", s)
+	e.c.Count("slow_subscriber_runs", 1)
 }
 
 // close stops everything this case started (the entity may have been removed from the device, so
@@ -1097,6 +1144,7 @@ func (e *c16Env) finish() {
 	for _, cl := range e.calls {
 		callSeqs = append(callSeqs, cl.Call)
 	}
+	callSeqs = append(callSeqs, e.marks...) // a change of the connection's speed ends a run like a call does
 	e.mu.Unlock()
 	var gaps []time.Duration
 	for i := 1; i < len(ns); i++ {
@@ -1119,10 +1167,13 @@ func (e *c16Env) finish() {
 	lags := append([]c16Lag(nil), e.lags...)
 	iv := e.sampleIv
 	e.mu.Unlock()
-	bound := announced*14/10 + 300*time.Millisecond
+	looseBound := announced*14/10 + 300*time.Millisecond
 	for i := 0; i < len(ns) && !e.noGapOracle; {
 		j := i
 		minGap := time.Duration(1 << 62)
+		// steady slow connection (slowRun): the least time the connection took for a notification that precedes a gap
+		// of this run (0: at least one of them was not slowed down)
+		minHeld := time.Duration(1 << 62)
 		for j+1 < len(ns) && ns[j+1].Goid == ns[i].Goid {
 			interrupted := false
 			for _, s := range callSeqs {
@@ -1136,18 +1187,38 @@ func (e *c16Env) finish() {
 			if g := ns[j+1].At.Sub(ns[j].At); g < minGap {
 				minGap = g
 			}
+			if h := ns[j].Held; ns[j].Share <= 0 {
+				minHeld = 0
+			} else if h < minHeld {
+				minHeld = h
+			}
 			j++
+		}
+		// The bound: the ticker of a stream keeps its schedule whatever the refresh itself costs, so with a connection
+		// that takes h < period per notification the gaps stay around the period (a late refresh is followed by a
+		// short gap); a period that begins anew when the notification is through shows period + h in every gap. With a
+		// slowed-down connection the bound lies in the middle, announced + h/2, and the starvation guard is tighter
+		// (a quarter of the announced timeout, at most 50 ms); otherwise the loose bound of 1.4 x announced + 300 ms.
+		bound, tol, slow := looseBound, 50*time.Millisecond, false
+		if j-i >= 6 && minHeld > 0 && announced <= 2*time.Second {
+			bound, slow = announced+minHeld/2, true
+			if announced/4 < tol {
+				tol = announced / 4
+			}
 		}
 		if j-i >= 6 {
 			c.Events(1)
 			c.Count("effective_period_runs_judged", 1)
+			if slow {
+				c.Count("effective_period_runs_judged_with_a_slow_subscriber", 1)
+				c.Seen("slow-subscriber-runs", fmt.Sprintf("timeout %s, %d%% per notification", announced, ns[i].Share))
+			}
 			if minGap > bound {
 				// starvation guard: the harness's own sampler timer runs in the same scheduler as the stream
 				// goroutine; if at least 90% of its wake-ups in the window were on time, the process got the
 				// CPU regularly and a true period within the timeout cannot have produced ONLY long gaps
 				var worst time.Duration
 				n, late := 0, 0
-				tol := 50 * time.Millisecond
 				for _, l := range lags {
 					if l.At.After(ns[i].At) && l.At.Before(ns[j].At) {
 						n++
@@ -1161,8 +1232,12 @@ func (e *c16Env) finish() {
 				}
 				window := ns[j].At.Sub(ns[i].At)
 				if iv > 0 && n >= int(window/iv)/2 && late*10 <= n {
-					c.Violate("period/effective-gaps-exceed-announced-timeout", "%d consecutive refreshes of one stream, no call in between: every gap >= %s, announced timeout %s (bound %s); the harness's own %s timer woke up %d times in that window, %d of them more than %s late (worst %s), so the process was not starved\n hook period records: %v", j-i+1, minGap, announced, bound, iv, n, late, tol, worst, periods)
-				} else if periodOK {
+					how := ""
+					if slow {
+						how = fmt.Sprintf("; the subscriber's connection took %s (%d%% of the announced timeout, less than the period) for each of these notifications: the refresh period depends on how long the subscribers take", minHeld, ns[i].Share)
+					}
+					c.Violate("period/effective-gaps-exceed-announced-timeout", "%d consecutive refreshes of one stream, no call in between: every gap >= %s, announced timeout %s (bound %s)%s; the harness's own %s timer woke up %d times in that window, %d of them more than %s late (worst %s), so the process was not starved\n hook period records: %v", j-i+1, minGap, announced, bound, how, iv, n, late, tol, worst, periods)
+				} else if periodOK || slow {
 					c.Inconclusive("every gap of %d consecutive refreshes >= %s (timeout %s) but %d of the %d wake-ups of the harness's own %s timer were more than %s late (worst %s): starved machine?", j-i+1, minGap, announced, late, n, iv, tol, worst)
 				}
 			}
@@ -1176,7 +1251,7 @@ func (e *c16Env) finish() {
 		sort.Slice(gaps, func(i, j int) bool { return gaps[i] < gaps[j] })
 		med := gaps[len(gaps)/2]
 		c.Count("median_gap_checked", 1)
-		if periodOK && med > announced*14/10+300*time.Millisecond {
+		if periodOK && med > looseBound {
 			c.Inconclusive("sanity: median gap between notifies %s exceeds timeout %s x 1.4 + 300ms although every hook period record is within the timeout (loaded machine?)", med, announced)
 		}
 	}
@@ -1567,6 +1642,13 @@ func c16Seq(c *rig.Ctx) {
 			v0, v0ok := e.counter()
 			shape = append(shape, "|")
 			e.checkpointRunning("add", s, v0, v0ok, true, 8)
+			// ... and a second one during which the subscriber's connection takes 40-60% of the period per heartbeat
+			// notification (timeouts up to 2 s: period = announced timeout; quick: 100-300 ms, thorough up to 1.25 s)
+			if goOn() && e.timeout <= 1250*time.Millisecond {
+				share := int64(40 + 10*r.Intn(3))
+				shape = append(shape, fmt.Sprintf("slow-subscriber(%d%%)|", share))
+				e.slowRun("add", share, 8)
+			}
 		} else {
 			checkpoint("add")
 		}
